@@ -35,4 +35,6 @@ def run(ctx):
                         "n >= 3 (n >= 5 for the L-method)"]
     res.not_decided += ["optimality over competing indices as a numerical fact (it follows from argmax/argmin once the criterion is the stated one)",
                         "ISODATA convergence inside the dependency"]
+    from .common import hidden_state as _hidden_state
+    _hidden_state(rc, "K6", ['curvature.knee', 'dfdt.knee', 'menger.knee', 'lmethod.knee', 'kneedle.knee'], "the single-knee detectors")
     res.require_instances("C09 obligations", len(res.obligations), 14)
